@@ -8,6 +8,10 @@ requests
   run                          whole run from the initial population
   step r s                     one externally driven step on the current state
   runc -|r:s;r:s…              whole run in which a callback of the listed steps clears scheduler.running
+  hcfg stepsFromSpecs 0|1      mechanism fact of the scheduler history model
+  respec start stop n collect fuel dtbits   model.run_specs(…) on the SAME model and scheduler: population kept
+  hrun                         whole run under the run specs in force (callOn … (.run sp))
+  hstep r s                    externally driven step under the run specs in force
   rerun -|r:s;…                `run` again on the current population with the current value of the flag
 replies: events `K/r/s/timebits[/a|ids]` joined by `;`, then `|progress=..|skipped=..|crashed=..|stuck=..|keys=..|pop=..|next=..`
 -/
@@ -72,6 +76,8 @@ structure D where
   k0 : Nat
   st : St
   running : Bool := true
+  h : SchedCfg := { stepsFromSpecs := true }
+  cache : Option Nat := none
 
 def ids (l : List Nat) : String := ".".intercalate (l.map toString)
 
@@ -115,11 +121,31 @@ def stepLine (d : D) (line : String) : D × String :=
     | some a, some b, some n, some col, some k0, some fuel, some dtb =>
       if col > 1 then (d, "bad-op") else
       ({ d with sp := { start := a, stop := b, n := n, collectOn := col == 1, fuel := fuel }
-                dt := Float.ofBits dtb, k0 := k0, st := St.init (pop0 k0), running := true }, "ok")
+                dt := Float.ofBits dtb, k0 := k0, st := St.init (pop0 k0), running := true, cache := none }, "ok")
     | _, _, _, _, _, _, _ => (d, "bad-op")
   | ["run"] =>
     let st := run d.c (mkProg d.es) d.sp (pop0 d.k0)
     ({ d with st := st }, status d st st.log)
+  | ["hcfg", "stepsFromSpecs", v] =>
+    if v == "0" || v == "1" then ({ d with h := { stepsFromSpecs := v == "1" } }, "ok") else (d, "bad-op")
+  | ["respec", a, b, n, col, fuel, dtb] =>
+    match parseInt a, parseInt b, n.toNat?, col.toNat?, fuel.toNat?, parseHex dtb with
+    | some a, some b, some n, some col, some fuel, some dtb =>
+      if col > 1 then (d, "bad-op") else
+      ({ d with sp := { start := a, stop := b, n := n, collectOn := col == 1, fuel := fuel }
+                dt := Float.ofBits dtb, st := St.init d.st.pop }, "ok")
+    | _, _, _, _, _, _ => (d, "bad-op")
+  | ["hrun"] =>
+    let x := callOn d.c d.h (mkProg d.es) { pop := d.st.pop, cache := d.cache } (.run d.sp)
+    let d' := { d with st := x.2, cache := x.1.cache }
+    (d', status d' x.2 x.2.log)
+  | ["hstep", r, s] => match parseInt r, s.toNat? with
+    | some r, some s =>
+      let sc : Sched := { pop := d.st.pop, cache := d.cache }
+      let st := runStep d.c (mkProg d.es) (effSpec d.h sc d.sp) d.st r s
+      let d' := { d with st := st, cache := cacheAfter d.h sc d.sp }
+      (d', status d' st (st.log.drop d.st.log.length))
+    | _, _ => (d, "bad-op")
   | ["runc", ps] => match parsePositions ps with
     | some ps =>
       let x := runC d.c (mkProg d.es) d.sp (fun r s => ps.contains (r, s)) (pop0 d.k0) true
